@@ -46,7 +46,13 @@ func genC17() *rapid.Generator[C17Case] {
 			}
 			return op
 		})
-		return C17Case{Steps: append(first, rapid.SliceOfN(step, 10, 60).Draw(t, "steps")...)}
+		steps := append(first, rapid.SliceOfN(step, 10, 60).Draw(t, "steps")...)
+		if rapid.IntRange(0, 3).Draw(t, "scenario") == 0 {
+			sc := bt.GenDropRecreate("t", "", c14Keys).Draw(t, "droprecreate")
+			at := rapid.IntRange(2, len(steps)).Draw(t, "at")
+			steps = append(append(append([]bt.Op{}, steps[:at]...), sc...), steps[at:]...)
+		}
+		return C17Case{Steps: steps}
 	})
 }
 
